@@ -1,52 +1,95 @@
 '''C11 — cell expressions denote the Boolean function MCNP assigns to them.
 
-Theorems: coq/Properties/C11.v.  Ties:
-  parse      : get_ast (normalize + PEG + GeomSemantics, through the shim) vs
-               Model.get_ast — EXHAUSTIVE on all strings up to a length over
-               the MCNP alphabet, plus random larger expressions in random
-               layouts and a malformed stream
+Theorems: coq/Properties/C11.v.  Ties (implementation vs coq/C11/Model.v):
+  parse/exhaustive : get_ast (normalize + PEG + GeomSemantics, through the
+               shim) vs Model.get_ast on EVERY string up to a length over the
+               alphabet "12-#(): ." — by bucketed fingerprints (number of
+               accepted strings and a weighted hash of the results per
+               two-character prefix, computed on both sides; a bucket that
+               differs is re-run case by case)
+  parse/corpus, soups, layouts, random, malformed : explicit cases
+               (text, result) checked by Exec.check_parse
   complement : CellConversion.pot_complement on generated cell tables vs
                Model.pot_complement
-Sweep (independent oracle): truth tables of the implementation's ASTs (after
-complement elimination) against the denotation of the generator's abstract
-expression, for all sense assignments.'''
+  split      : cellcard.split on cell cards carrying the expression
+Sweep (independent oracle): truth tables of the implementation's trees (after
+parsing, and after complement elimination incl. the sequential loop of
+ConstructVolumeT4) against harness/mcnpref.py's evaluator of the abstract
+MCNP expression, for all sense assignments; invariance of the tree under all
+layouts of the layout family.'''
 import itertools
 import json
 import random
+import time
 
+import c11_peg
+import c11_refparse
 import common
+import mcnpref
 from common import cstr, clist, cpair, cz, cn, copt, cbool
 
 THEOREMS = ['C11_inverse_den', 'C11_inverse_complcell_rejects',
-            'C11_pot_complement_den', 'C11_pot_complement_lattice_empty',
-            'C11_parse_print', 'C11_parse_print_den',
+            'C11_pot_complement_den', 'C11_eliminate_all_den',
+            'C11_pot_complement_lattice_empty',
+            'C11_parse_print_tokens', 'C11_lex_render',
+            'C11_parse_print_canonical', 'C11_parse_print',
+            'C11_layout_exists', 'C11_pipeline',
+            'C11_parse_psem', 'C11_accepted_iff',
+            'C11_nested_rejected', 'C11_colon_hash_rejected',
+            'C11_parse_sound', 'C11_lex_sound', 'C11_get_ast_sound',
+            'C11_split_card', 'C11_card_geometry',
+            'C11_get_ast_accepts_iff',
             'C11_nested_refuted', 'C11_colon_hash_refuted']
 TRUSTED = [
-    'hand-written model coq/C11/Model.v: lexer + precedence parser standing '
-    'for the regex pipeline + PEG (structurally different from the code; '
-    'agreement established by the exhaustive bounded tie and random tie only)',
+    'hand-written model coq/C11/Model.v: lexer + pushdown precedence parser '
+    'standing for the regex pipeline + PEG (structurally different from the '
+    'code; agreement established by the exhaustive bounded tie and the '
+    'generated ties only)',
     'harness PEG shim replacing TatSu (reads geom.ebnf and GeomSemantics from '
-    '/repo)',
-    'the layout family covered by the theorem is the canonical token layout; '
-    'other layouts are covered by the tie only',
+    'the repository)',
+    'fingerprints of the exhaustive tie: equality of (accepted count, weighted '
+    'sum mod 2^31-1 of result hashes) per bucket stands for equality of all '
+    'results in the bucket',
+    'harness/mcnpref.py expression evaluator (sweep oracle), generators',
 ]
 ASSUMPTIONS = [
     'alphabet of cell expressions: digits + - . # ( ) : and blanks; the '
-    "implementation's private characters _ ^ * never occur in input",
+    "implementation's private characters _ ^ * and the word LIKE never occur "
+    'in input',
     'surface numbers are non-zero; facet suffix is one digit',
+    'layout family of C11_parse_print: any blanks before/after tokens and '
+    'after #, any digit spelling, optional +, redundant parentheses as '
+    'MParen nodes of the expression',
+    'complement of a lattice cell: the code returns an empty intersection; '
+    'tied and proved empty, not compared with MCNP',
+    'cell cards (split): no LIKE n BUT; material numbers written as digit '
+    'strings (float() of anything else is outside the model); in the theorem '
+    'the density consists of digits, signs and "." (no E exponent letter) and '
+    'the expression is separated from it by a blank; the regexes of '
+    'cellcard.py are read as greedy scans',
 ]
 HEADER = ('From Coq Require Import List NArith ZArith Bool String Ascii.\n'
           'From T4V Require Import Base.Str C11.Model C11.Exec.\n'
           'Open Scope string_scope.\n')
 
+CLS_NESTED = 'nested_complement_of_cellref'
+CLS_COLON = 'complement_after_colon'
+ALPHABET = '12-#(): .'
+FP_P = 2147483647
+
 
 # ---- implementation side --------------------------------------------------
 
-def impl_get_ast(text):
-    '''('ok', tree) | ('err', 'EParse'|'EAttribute')'''
-    import MIP.geom.parsegeom as pg
+def impl_get_ast(text, plain=False):
+    '''('ok', tree) | ('err', 'EParse'|'EAttribute').  plain: parse with the
+    shared shim instead of its memoising subclass (cross check).'''
     import tatsu.exceptions
+    pg, plain_parser = c11_peg.install()
     try:
+        if plain:
+            from MIP.geom.semantics import GeomSemantics
+            return ('ok', canon(plain_parser.parse(
+                pg.normalize(text), semantics=GeomSemantics())))
         return ('ok', canon(pg.get_ast(text)))
     except tatsu.exceptions.ParseException:
         return ('err', 'EParse')
@@ -56,14 +99,14 @@ def impl_get_ast(text):
 
 def canon(ast):
     '''Python AST -> nested tuples ('s', z, sub) | ('*', l, r) | (':', l, r) |
-    ('^', n)'''
+    ('^', n) | ('*raw', l, r)'''
     from MIP.geom.semantics import Surface
     if isinstance(ast, Surface):
         return ('s', ast.surface, ast.sub)
     if isinstance(ast, list) and ast[0] == '*' and len(ast) == 3:
         return ('*raw', canon(ast[1]), canon(ast[2]))
     if isinstance(ast, (tuple, list)):
-        if ast[0] == '^':
+        if ast[0] == '^' and len(ast) == 2:
             return ('^', int(ast[1]))
         if ast[0] in ('*', ':') and len(ast) == 3:
             return (ast[0], canon(ast[1]), canon(ast[2]))
@@ -83,121 +126,123 @@ def coq_res(out):
     return f'(Ok {coq_ast(out[1])})' if out[0] == 'ok' else f'(Err {out[1]})'
 
 
+# ---- fingerprints (same functions as coq/C11/Exec.v) ----------------------
+
+def h_ast(tree):
+    tag = tree[0]
+    if tag == 's':
+        sub = 0 if tree[2] is None else tree[2] + 1
+        return (1 + 3 * (tree[1] % FP_P) + 7 * sub) % FP_P
+    if tag == '^':
+        return (17 + 47 * tree[1]) % FP_P
+    a, b, c = {'*': (11, 31, 37), ':': (13, 41, 43),
+               '*raw': (19, 53, 59)}[tag]
+    return (a + b * h_ast(tree[1]) + c * h_ast(tree[2])) % FP_P
+
+
+ERR_CODE = {'EParse': 1, 'EAttribute': 2, 'EKey': 3, 'EFuel': 4, 'EAssert': 5}
+
+
+def h_res(out):
+    if out[0] == 'ok':
+        return (1000 + h_ast(out[1])) % FP_P
+    return ERR_CODE[out[1]]
+
+
+def h_str(text):
+    acc = 7
+    for ch in text:
+        acc = (acc * 131 + ord(ch)) % FP_P
+    return acc
+
+
+def strings_upto(prefix, n):
+    for k in range(n + 1):
+        for tup in itertools.product(ALPHABET, repeat=k):
+            yield prefix + ''.join(tup)
+
+
 # ---- abstract MCNP expressions (the spec side of the sweep) ---------------
 # E ::= ('s', z, sub) | ('*', a, b) | (':', a, b) | ('#', e) | ('#c', n)
+#     | ('p', e)          redundant parentheses
 
-def gen_expr(rng, depth, n_surf, cells, allow_nested_cell=True):
-    r = rng.random()
-    if depth <= 0 or r < 0.3:
-        if cells and rng.random() < 0.2:
-            return ('#c', rng.choice(cells))
-        z = rng.randint(1, n_surf) * rng.choice([1, -1])
-        sub = rng.randint(1, 6) if rng.random() < 0.1 else None
-        return ('s', z, sub)
-    if r < 0.6:
-        return ('*', gen_expr(rng, depth - 1, n_surf, cells),
-                gen_expr(rng, depth - 1, n_surf, cells))
-    if r < 0.85:
-        return (':', gen_expr(rng, depth - 1, n_surf, cells),
-                gen_expr(rng, depth - 1, n_surf, cells))
-    return ('#', gen_expr(rng, depth - 1, n_surf, cells))
-
-
-def has_cell_under_not(e, under=False):
-    if e[0] == '#c':
-        return under
-    if e[0] == '#':
-        return has_cell_under_not(e[1], True)
-    if e[0] in ('*', ':'):
-        return has_cell_under_not(e[1], under) or has_cell_under_not(e[2], under)
-    return False
-
-
-def starts_with_hash(e):
-    if e[0] in ('#', '#c'):
-        return True
-    if e[0] == '*':
-        return starts_with_hash(e[1]) if e[1][0] != ':' else False
-    if e[0] == ':':
-        return starts_with_hash(e[1])
-    return False
-
-
-def has_colon_hash(e):
-    '''a union operand (other than the first) whose text starts with #'''
-    if e[0] == ':':
-        return (starts_with_hash_isect(e[2]) or has_colon_hash(e[1])
-                or has_colon_hash(e[2]))
-    if e[0] == '*':
-        return has_colon_hash(e[1]) or has_colon_hash(e[2])
-    if e[0] == '#':
-        return has_colon_hash(e[1])
-    return False
-
-
-def starts_with_hash_isect(e):
-    '''first token of e printed as a union operand (isect level)'''
-    if e[0] in ('#', '#c'):
-        return True
-    if e[0] == '*':
-        # printed as  left right ; left parenthesised only if it is a union
-        return False if e[1][0] == ':' else starts_with_hash_isect(e[1])
-    return False     # literal, or a union printed inside parentheses
-
-
-def render(e, rng, level=0):
-    '''Text of e in a random admissible layout. level: 0 union, 1 isect,
-    2 operand.'''
-    def sp(min_=0):
-        return ' ' * rng.choice([min_, min_, 1, 2]) if rng else ' ' * min_
-    if e[0] == 's':
-        sign = '-' if e[1] < 0 else ('+' if rng and rng.random() < 0.1 else '')
-        txt = f'{sign}{abs(e[1])}'
-        if e[2] is not None:
-            txt += f'.{e[2]}'
-        return txt
-    if e[0] == '#c':
-        return '#' + sp() + str(e[1])
-    if e[0] == '#':
-        return '#' + sp() + '(' + sp() + render(e[1], rng, 0) + sp() + ')'
-    if e[0] == '*':
-        left = render(e[1], rng, 1)
-        right = render(e[2], rng, 2)
-        # a blank is needed only between two literals
-        need = 1 if (left[-1].isdigit() and (right[0].isdigit()
-                                             or right[0] in '+-')) else 0
-        txt = left + sp(need) + right
-        return '(' + sp() + txt + sp() + ')' if level > 1 else txt
-    if e[0] == ':':
-        txt = render(e[1], rng, 0) + sp() + ':' + sp() + render(e[2], rng, 1)
-        return '(' + sp() + txt + sp() + ')' if level > 0 else txt
+def to_ref(e):
+    '''abstract expression -> harness/mcnpref.py expression'''
+    tag = e[0]
+    if tag == 's':
+        return ('s', e[1]) if e[2] is None else ('f', e[1], e[2])
+    if tag in ('*', ':'):
+        return (tag, to_ref(e[1]), to_ref(e[2]))
+    if tag == '#':
+        return ('#', to_ref(e[1]))
+    if tag == 'p':
+        return to_ref(e[1])
+    if tag == '#c':
+        return e
     raise ValueError(e)
 
 
-def spec_eval(e, sigma, cellfun):
-    if e[0] == 's':
-        val = sigma[(abs(e[1]), e[2])]
-        return val if e[1] > 0 else not val
-    if e[0] == '*':
-        return spec_eval(e[1], sigma, cellfun) and spec_eval(e[2], sigma, cellfun)
-    if e[0] == ':':
-        return spec_eval(e[1], sigma, cellfun) or spec_eval(e[2], sigma, cellfun)
-    if e[0] == '#':
-        return not spec_eval(e[1], sigma, cellfun)
+class BoolRef(mcnpref.Reference):
+    '''mcnpref's expression semantics over sense assignments instead of
+    points: the "point" is a dict (surface, facet) -> positive sense.'''
+
+    def __init__(self, cell_exprs):
+        self.cells = {cid: {'id': cid, 'expr': to_ref(e)}
+                      for cid, e in cell_exprs.items()}
+        self.surfs, self.trs, self.eps = {}, {}, 0.0
+
+    def sense(self, sid, p, facet=None):
+        return p[(sid, facet)]
+
+    def holds(self, e, sigma):
+        return self.eval_expr(to_ref(e), sigma, sigma)
+
+
+OPAQUE = (7, 18, 209)   # cells referenced by #n in the parse sweep
+
+
+CELLBASE = 1000000
+
+
+class OpaqueRef(BoolRef):
+    '''every cell n is a free Boolean variable (CELLBASE + n, None)'''
+
+    def __init__(self):
+        super().__init__({})
+
+    def in_cell(self, cid, p):
+        return p[(CELLBASE + cid, None)]
+
+
+def opaque_ref():
+    return OpaqueRef()
+
+
+def cellrefs(e, out):
     if e[0] == '#c':
-        return not cellfun(e[1], sigma)
-    raise ValueError(e)
+        out.add(e[1])
+    elif e[0] in ('*', ':'):
+        cellrefs(e[1], out)
+        cellrefs(e[2], out)
+    elif e[0] in ('#', 'p'):
+        cellrefs(e[1], out)
+    return out
 
 
-def tree_eval(tree, sigma):
-    '''canonical implementation AST (complement-free)'''
-    if tree[0] == 's':
+def tree_eval(tree, sigma, cellval=None):
+    '''implementation tree under a sense assignment'''
+    tag = tree[0]
+    if tag == 's':
         val = sigma[(abs(tree[1]), tree[2])]
         return val if tree[1] > 0 else not val
-    if tree[0] in ('*', '*raw'):
-        return tree_eval(tree[1], sigma) and tree_eval(tree[2], sigma)
-    if tree[0] == ':':
-        return tree_eval(tree[1], sigma) or tree_eval(tree[2], sigma)
+    if tag in ('*', '*raw'):
+        return (tree_eval(tree[1], sigma, cellval)
+                and tree_eval(tree[2], sigma, cellval))
+    if tag == ':':
+        return (tree_eval(tree[1], sigma, cellval)
+                or tree_eval(tree[2], sigma, cellval))
+    if tag == '^' and cellval is not None:
+        return not cellval(tree[1], sigma)
     raise ValueError(f'complement left in tree: {tree!r}')
 
 
@@ -207,26 +252,277 @@ def atoms(e, out):
     elif e[0] in ('*', ':'):
         atoms(e[1], out)
         atoms(e[2], out)
-    elif e[0] == '#':
+    elif e[0] in ('#', 'p'):
         atoms(e[1], out)
     return out
 
 
+def strip_p(e):
+    while e[0] == 'p':
+        e = e[1]
+    return e
+
+
+def has_cell_under_not(e, under=False):
+    if e[0] == '#c':
+        return under
+    if e[0] == '#':
+        return has_cell_under_not(e[1], True)
+    if e[0] == 'p':
+        return has_cell_under_not(e[1], under)
+    if e[0] in ('*', ':'):
+        return (has_cell_under_not(e[1], under)
+                or has_cell_under_not(e[2], under))
+    return False
+
+
+def first_is_hash(e, level):
+    '''does the text of e printed at `level` start with '#' ?'''
+    tag = e[0]
+    if tag in ('#', '#c'):
+        return True
+    if tag == '*':
+        return False if level > 1 else first_is_hash(e[1], 1)
+    if tag == ':':
+        return False if level > 0 else first_is_hash(e[1], 0)
+    return False        # literal, parenthesis
+
+
+def has_colon_hash(e):
+    '''some right operand of ':' is written starting with '#' '''
+    tag = e[0]
+    if tag == ':':
+        return (first_is_hash(e[2], 1) or has_colon_hash(e[1])
+                or has_colon_hash(e[2]))
+    if tag == '*':
+        return has_colon_hash(e[1]) or has_colon_hash(e[2])
+    if tag in ('#', 'p'):
+        return has_colon_hash(e[1])
+    return False
+
+
+def protect(e):
+    '''same expression, every complement that follows a colon put inside
+    redundant parentheses (the writing the implementation accepts)'''
+    tag = e[0]
+    if tag == ':':
+        right = protect(e[2])
+        if first_is_hash(right, 1):
+            right = ('p', right)
+        return (':', protect(e[1]), right)
+    if tag == '*':
+        left = protect(e[1])
+        return ('*', left, protect(e[2]))
+    if tag in ('#', 'p'):
+        return (tag, protect(e[1]))
+    return e
+
+
+# ---- layouts --------------------------------------------------------------
+# a layout gives the number of blanks per KIND of gap:
+#   op  between two operands of an intersection (1 is added where MCNP needs a
+#       blank: between two literals, between #n and an unsigned literal)
+#   col around ':'      po after '(' / before ')'     ha after '#'
+#   out at both ends of the text                      plus: write '+'
+
+CANON = {'op': 1, 'col': 1, 'po': 0, 'ha': 0, 'out': 0, 'plus': False}
+
+
+def all_layouts():
+    for op, col, po, ha, out, plus in itertools.product(
+            (0, 1), (0, 2), (0, 1), (0, 2), (0, 1), (False, True)):
+        yield {'op': op, 'col': col, 'po': po, 'ha': ha, 'out': out,
+               'plus': plus}
+
+
+def random_layout(rng):
+    return {'op': rng.choice((0, 0, 1, 3)), 'col': rng.choice((0, 1, 2)),
+            'po': rng.choice((0, 0, 1, 2)), 'ha': rng.choice((0, 0, 1, 2)),
+            'out': rng.choice((0, 1)), 'plus': rng.random() < 0.3,
+            'rng': rng}
+
+
+def render(e, lay, level=0, top=True):
+    '''Text of e. level: 0 union, 1 intersection, 2 operand. With lay['rng']
+    every gap is drawn separately (>= the layout's minimum).'''
+    rng = lay.get('rng')
+
+    def sp(kind, need=0):
+        n = max(lay[kind], need)
+        if rng is not None and rng.random() < 0.3:
+            n += rng.randint(0, 2)
+        return ' ' * n
+
+    tag = e[0]
+    if tag == 's':
+        sign = '-' if e[1] < 0 else ('+' if lay['plus'] else '')
+        txt = f'{sign}{abs(e[1])}'
+        if lay.get('zeros') and rng is not None and rng.random() < 0.2:
+            txt = f'{sign}0{abs(e[1])}'
+        if e[2] is not None:
+            txt += f'.{e[2]}'
+    elif tag == '#c':
+        txt = '#' + sp('ha') + str(e[1])
+    elif tag == '#':
+        txt = ('#' + sp('ha') + '(' + sp('po') + render(e[1], lay, 0, False)
+               + sp('po') + ')')
+    elif tag == 'p':
+        txt = '(' + sp('po') + render(e[1], lay, 0, False) + sp('po') + ')'
+    elif tag == '*':
+        left = render(e[1], lay, 1, False)
+        right = render(e[2], lay, 2, False)
+        # where MCNP itself needs a blank: digit followed by digit or sign
+        # (two literals), #n followed by an unsigned literal
+        need = 0
+        if left[-1].isdigit() and (right[0].isdigit() or right[0] in '+-'):
+            need = 1
+            if right[0] in '+-' and ends_with_cellref(e[1]):
+                need = 0
+        txt = left + sp('op', need) + right
+        if level > 1:
+            txt = '(' + sp('po') + txt + sp('po') + ')'
+    elif tag == ':':
+        txt = (render(e[1], lay, 0, False) + sp('col') + ':' + sp('col')
+               + render(e[2], lay, 1, False))
+        if level > 0:
+            txt = '(' + sp('po') + txt + sp('po') + ')'
+    else:
+        raise ValueError(e)
+    if top:
+        txt = sp('out') + txt + sp('out')
+    return txt
+
+
+def ends_with_cellref(e):
+    '''the last token of e (as a left operand of an intersection) is #n'''
+    tag = e[0]
+    if tag == '#c':
+        return True
+    if tag == '*':
+        return ends_with_cellref(e[2]) if e[2][0] != '*' else False
+    return False
+
+
+# ---- generators -----------------------------------------------------------
+
+def gen_expr(rng, depth, n_surf, cells):
+    r = rng.random()
+    if depth <= 0 or r < 0.3:
+        if cells and rng.random() < 0.2:
+            return ('#c', rng.choice(cells))
+        z = rng.randint(1, n_surf) * rng.choice([1, -1])
+        if rng.random() < 0.05:
+            z *= rng.choice([10, 100, 12345])
+        sub = rng.randint(1, 8) if rng.random() < 0.1 else None
+        return ('s', z, sub)
+    if r < 0.58:
+        return ('*', gen_expr(rng, depth - 1, n_surf, cells),
+                gen_expr(rng, depth - 1, n_surf, cells))
+    if r < 0.80:
+        return (':', gen_expr(rng, depth - 1, n_surf, cells),
+                gen_expr(rng, depth - 1, n_surf, cells))
+    if r < 0.93:
+        return ('#', gen_expr(rng, depth - 1, n_surf, cells))
+    return ('p', gen_expr(rng, depth - 1, n_surf, cells))
+
+
+def small_exprs(k):
+    '''every expression with exactly k operands: all binary shapes, both
+    operators at every node, '#( )' around any subset of nodes, operand i is
+    the literal +-i (sign by parity) or, for one operand at a time, #7.'''
+    def shapes(lo, hi):
+        if hi - lo == 1:
+            yield ('leaf', lo)
+            return
+        for mid in range(lo + 1, hi):
+            for left in shapes(lo, mid):
+                for right in shapes(mid, hi):
+                    for op in '*:':
+                        yield (op, left, right)
+
+    def decorate(shape, cellpos):
+        '''all ways of wrapping nodes in '#( )' '''
+        if shape[0] == 'leaf':
+            i = shape[1]
+            base = ('#c', 7) if i == cellpos else \
+                ('s', (i + 1) * (1 if i % 2 == 0 else -1), None)
+            yield base
+            yield ('#', base)
+            return
+        for left in decorate(shape[1], cellpos):
+            for right in decorate(shape[2], cellpos):
+                node = (shape[0], left, right)
+                yield node
+                yield ('#', node)
+
+    for shape in shapes(0, k):
+        for cellpos in [None] + list(range(k)):
+            yield from decorate(shape, cellpos)
+
+
+# ---- hand-written corpus: text -> tree MCNP's reading gives (or None when the
+# text is not an expression). Written from the MCNP manual, not from the code.
+L = lambda z, sub=None: ('s', z, sub)          # noqa: E731
+CORPUS = [
+    ('1', L(1)), ('-1', L(-1)), ('+1', L(1)), ('12', L(12)), ('1.2', L(1, 2)),
+    ('-12.3', L(-12, 3)), ('1 2', ('*', L(1), L(2))),
+    ('1  -2', ('*', L(1), L(-2))), ('1:2', (':', L(1), L(2))),
+    ('1 : 2', (':', L(1), L(2))),
+    ('1 2:3', (':', ('*', L(1), L(2)), L(3))),
+    ('1:2 3', (':', L(1), ('*', L(2), L(3)))),
+    ('1:2:3', (':', (':', L(1), L(2)), L(3))),
+    ('1 2 3', ('*', ('*', L(1), L(2)), L(3))),
+    ('1 (2:3)', ('*', L(1), (':', L(2), L(3)))),
+    ('(1:2) 3', ('*', (':', L(1), L(2)), L(3))),
+    ('(1:2)(3:4)', ('*', (':', L(1), L(2)), (':', L(3), L(4)))),
+    ('1(2:3)', ('*', L(1), (':', L(2), L(3)))),
+    ('(2:3)1', ('*', (':', L(2), L(3)), L(1))),
+    ('( 1 )', L(1)), ('((1))', L(1)), ('( 1 2 )', ('*', L(1), L(2))),
+    ('#5', ('^', 5)), ('# 5', ('^', 5)), ('#5 1', ('*', ('^', 5), L(1))),
+    ('1 #5', ('*', L(1), ('^', 5))), ('1#5', ('*', L(1), ('^', 5))),
+    ('#5#6', ('*', ('^', 5), ('^', 6))),
+    ('#5:1', (':', ('^', 5), L(1))),
+    ('#(1)', L(-1)), ('#(-1)', L(1)), ('# ( 1 )', L(-1)),
+    ('#(1 2)', (':', L(-1), L(-2))), ('#(1:2)', ('*', L(-1), L(-2))),
+    ('#(1 2:3)', ('*', (':', L(-1), L(-2)), L(-3))),
+    ('#(#(1 2))', ('*', L(1), L(2))),
+    ('#(1.2)', L(-1, 2)),
+    ('1 #(2 3) 4', ('*', ('*', L(1), (':', L(-2), L(-3))), L(4))),
+    ('1#(2)3', ('*', ('*', L(1), L(-2)), L(3))),
+    ('(1:2)#(3)', ('*', (':', L(1), L(2)), L(-3))),
+    ('#(1)(2)', ('*', L(-1), L(2))),
+    ('#5-1', ('*', ('^', 5), L(-1))), ('#12', ('^', 12)),
+    ('#105 1', ('*', ('^', 105), L(1))), ('# 0012', ('^', 12)),
+    ('1:(#5)', (':', L(1), ('^', 5))),
+    # not expressions
+    ('', None), (' ', None), ('1 :', None), (': 1', None), ('1 : : 2', None),
+    ('()', None), ('(1', None), ('1)', None), ('#', None), ('# #5', None),
+    ('- 1', None), ('1 - 2', None), ('1.', None), ('.1', None),
+    ('1.2.3', None), ('1-2', None), ('1+2', None), ('#(1', None),
+    ('#()', None), ('1 # 2)', None), ('1.23', None), ('--1', None),
+]
+CORPUS_KNOWN = [       # well-formed, rejected by the code (the two classes)
+    ('#(-2 #1)', CLS_NESTED), ('#(#1)', CLS_NESTED), ('#(1:(#2) 3)', CLS_NESTED),
+    ('1:#2', CLS_COLON), ('1 : #2', CLS_COLON), ('1:#(2)', CLS_COLON),
+    ('(1):#2', CLS_COLON), ('1 2:#(3 4)', CLS_COLON), ('#1:#2', CLS_COLON),
+]
+
+
 # ---- pot_complement on the implementation ---------------------------------
 
-def impl_complement(table_texts, lattice_ids, target):
-    '''table_texts: {cell id: expression text}. Returns canonical outcome of
-    pot_complement on cell `target` (all cells parsed by get_ast first).'''
+def make_cells(table_texts, lattice_ids):
     import MIP.geom.parsegeom as pg
-    from t4_geom_convert.Kernel.Volume.CellConversion import CellConversion
     from t4_geom_convert.Kernel.Volume.CellMCNP import CellMCNP
     cells = {}
     for cid, text in table_texts.items():
         cells[cid] = CellMCNP('0', None, pg.get_ast(text), 1.0, 0, None, (),
                               1 if cid in lattice_ids else None, [])
-    conv = CellConversion(1000, 1000, {}, {}, {}, cells)
+    return cells
+
+
+def guarded(fun):
     try:
-        return ('ok', canon(conv.pot_complement(cells[target].geometry)))
+        return ('ok', canon(fun()))
     except AttributeError:
         return ('err', 'EAttribute')
     except KeyError:
@@ -237,132 +533,343 @@ def impl_complement(table_texts, lattice_ids, target):
         return ('err', 'EAssert')
 
 
-KNOWN_WITNESSES = {
-    # class -> (text, expected defect outcome)
-    'complement_of_cell_inside_hash_paren': ('#(-2 #1)', ('err', 'EAttribute')),
-    'complement_right_after_colon': ('1:#2', ('err', 'EParse')),
-}
+def impl_complement(table_texts, lattice_ids, target):
+    '''canonical outcome of pot_complement on the geometry of `target` in a
+    freshly parsed table'''
+    from t4_geom_convert.Kernel.Volume.CellConversion import CellConversion
+    cells = make_cells(table_texts, lattice_ids)
+    conv = CellConversion(1000, 1000, {}, {}, {}, cells)
+    return guarded(lambda: conv.pot_complement(cells[target].geometry))
 
 
-def classify(e):
-    '''known-finding class of an abstract expression the implementation
-    cannot parse, or None'''
-    if has_cell_under_not(e):
-        return 'complement_of_cell_inside_hash_paren'
-    if has_colon_hash(e):
-        return 'complement_right_after_colon'
+def impl_complement_loop(table_texts):
+    '''the loop of ConstructVolumeT4.construct_volume: every cell in
+    dictionary order, geometry replaced in place. {cell: outcome}'''
+    from t4_geom_convert.Kernel.Volume.CellConversion import CellConversion
+    cells = make_cells(table_texts, ())
+    conv = CellConversion(1000, 1000, {}, {}, {}, cells)
+    outs = {}
+    for key in cells:
+        try:
+            new_geom = conv.pot_complement(cells[key].geometry)
+        except (AttributeError, KeyError, RecursionError) as exc:
+            outs[key] = ('err', type(exc).__name__)
+            continue
+        cells[key].geometry = new_geom
+        outs[key] = ('ok', canon(new_geom))
+    return outs
+
+
+def impl_loop_abort(table_texts, lattice_ids):
+    '''the same loop as the converter runs it: the first exception aborts.
+    ('ok', [(cell, tree) in dictionary order]) | ('err', kind)'''
+    from t4_geom_convert.Kernel.Volume.CellConversion import CellConversion
+    cells = make_cells(table_texts, lattice_ids)
+    conv = CellConversion(1000, 1000, {}, {}, {}, cells)
+    try:
+        for key in cells:
+            new_geom = conv.pot_complement(cells[key].geometry)
+            cells[key].geometry = new_geom
+    except AttributeError:
+        return ('err', 'EAttribute')
+    except KeyError:
+        return ('err', 'EKey')
+    except RecursionError:
+        return ('err', 'EFuel')
+    except AssertionError:
+        return ('err', 'EAssert')
+    return ('ok', [(key, canon(cells[key].geometry)) for key in cells])
+
+
+# ---- the run ---------------------------------------------------------------
+
+class Cases:
+    '''explicit (text, result) cases for Exec.check_parse'''
+
+    def __init__(self):
+        self.cases, self.meta, self.known = [], [], set()
+
+    def add(self, text, out, origin):
+        if text in self.known:
+            return
+        self.known.add(text)
+        self.cases.append(cpair(cstr(text), coq_res(out)))
+        self.meta.append((text, out, origin))
+
+
+def classify(e, out):
+    '''narrow known-finding class of a rejected well-formed expression'''
+    if out == ('err', 'EAttribute') and has_cell_under_not(e):
+        return CLS_NESTED
+    if out == ('err', 'EParse') and has_colon_hash(e):
+        return CLS_COLON
     return None
+
+
+def sweep_expr(res, ref, e, text, out, origin):
+    '''property-level check of one well-formed expression: accepted, and the
+    tree denotes the MCNP meaning for all sense assignments. Returns True when
+    the expression was accepted.'''
+    if out[0] == 'err':
+        cls = classify(e, out)
+        res.count(f'{origin}:rejected:{cls or "UNEXPECTED"}')
+        res.violation('impl-violation',
+                      f'well-formed expression {text!r} rejected: {out[1]}',
+                      {'input': {'text': text, 'expr': e}, 'observed': out},
+                      cls=cls)
+        return False
+    at = sorted(atoms(e, set()), key=str)
+    if (0, None) in at or any(a[0] == 0 for a in at):
+        return True             # surface 0: outside the property
+    cell_atoms = [(CELLBASE + n, None) for n in sorted(cellrefs(e, set()))]
+    n_at = len(at) + len(cell_atoms)
+    if n_at <= 10:
+        assignments = itertools.product([False, True], repeat=n_at)
+    else:               # too many variables: 1024 assignments drawn from text
+        local = random.Random(len(text) * 1009 + n_at)
+        assignments = [[local.random() < 0.5 for _ in range(n_at)]
+                       for _ in range(1024)]
+    for bits in assignments:
+        sigma = dict(zip(at + cell_atoms, bits))
+        want = ref.holds(e, sigma)
+        try:
+            got = tree_eval(out[1], sigma,
+                            lambda n, s: s[(CELLBASE + n, None)])
+        except KeyError as exc:     # a surface/facet the expression lacks
+            got = f'undefined (tree refers to {exc})'
+        if want != got:
+            res.count(f'{origin}:sweep-FAIL')
+            shown = {f'{k[0]}' + (f'.{k[1]}' if k[1] else ''): v
+                     for k, v in sigma.items()}
+            res.violation('impl-violation',
+                          f'{text!r}: the parsed tree is {got} where the MCNP '
+                          f'expression is {want}, senses {shown}',
+                          {'input': {'text': text, 'expr': e},
+                           'sigma': shown, 'observed': out},
+                          found_input=True)
+            return True
+    res.count(f'{origin}:sweep-ok')
+    return True
+
+
+def wellformed(res, ref, text, out, origin):
+    '''arbitrary text: when the independent reader (c11_refparse, written
+    from the manual) finds an expression, the property is checked on it; a
+    text it does not read but the implementation accepts is only counted.'''
+    e = c11_refparse.parse(text)
+    if e is not None:
+        sweep_expr(res, ref, e, text, out, origin + '-wellformed')
+    elif out[0] == 'ok':
+        res.count(origin + ':accepted-though-not-read-by-the-reference')
+        extra = res.extra.setdefault('accepted_not_wellformed_samples', [])
+        if len(extra) < 12:
+            extra.append(text)
 
 
 def run(res, tier, seed, proofs_ok):
     rng = random.Random(seed)
-    res.rule = ('parse tie: every string of length <= L over the alphabet '
-                '"12-#(): ." (L=5 quick, 6 thorough) plus strings with "+" and '
-                'random expressions (depth <= 5) in random layouts plus mutated '
-                '(malformed) texts; non-trivial = the implementation accepts '
-                'the string or raises AttributeError; distinct by text. '
-                'Sweep: all sense assignments of generated expressions.')
+    quick = tier == 'quick'
+    timings = {}
+    t0 = time.time()
+    res.rule = ('exhaustive: every string of length <= L over "12-#(): ." '
+                '(L=5 quick, 6 thorough) by fingerprints; explicit cases: '
+                'hand-written corpus, token soups (with +, two-digit numbers, '
+                'facets), every expression with <= 3 (quick) / 4 (thorough) '
+                'operands in 64 layouts (a sample of 16 / 8 of them for the largest size of the tier), random expressions (depth <= 5, '
+                'redundant parentheses, leading zeros) in random layouts, '
+                'their character mutations; cell tables (2-5 cells, acyclic, '
+                'lattice cells, dangling and cyclic references); cell cards. '
+                'non-trivial = accepted by the implementation or raising '
+                'AttributeError; distinct by text.')
+    ref = opaque_ref()
+    explicit = Cases()
 
-    # ---- known-finding witnesses first ----
-    for cls, (text, bad_outcome) in KNOWN_WITNESSES.items():
+    # ---- 1. known-finding witnesses and corpus --------------------------
+    for text, cls in CORPUS_KNOWN:
         out = impl_get_ast(text)
+        explicit.add(text, out, 'corpus')
+        res.seen(text)
         if out[0] == 'err':
+            want = 'EAttribute' if cls == CLS_NESTED else 'EParse'
             res.violation('impl-violation',
                           f'well-formed MCNP expression {text!r} is rejected '
-                          f'({out[1]})', {'input': {'text': text},
-                                          'observed': out}, cls=cls)
-
-    # ---- exhaustive parse tie ----
-    alphabet = '12-#(): .'
-    max_len = 5 if tier == 'quick' else 6
-    texts = []
-    for n in range(0, max_len + 1):
-        for tup in itertools.product(alphabet, repeat=n):
-            texts.append(''.join(tup))
-    n_exh = len(texts)
-    # plus: strings with '+', two-digit numbers, longer random token soups
-    soup = ['1', '2', '12', '-1', '+2', '1.1', '-2.3', '#', '# ', '(', ')',
-            ':', ' ', '  ', '#(', '#1', '# 2', ' : ', '.', '-', '+', '1.23']
-    for _ in range(4000 if tier == 'quick' else 40000):
-        k = rng.randint(2, 9)
-        texts.append(''.join(rng.choice(soup) for _ in range(k)))
-    cases, meta = [], []
-    n_acc = 0
-    for text in texts:
-        if not text.strip():
-            # get_ast('') : normalize gives '' and the PEG fails; keep it
-            pass
+                          f'({out[1]})',
+                          {'input': {'text': text}, 'observed': out},
+                          cls=cls if out[1] == want else None)
+    for text, want in CORPUS:
         out = impl_get_ast(text)
-        cases.append(cpair(cstr(text), coq_res(out)))
-        meta.append((text, out))
-        nontrivial = out[0] == 'ok' or out[1] == 'EAttribute'
-        n_acc += nontrivial
-        res.seen(text, nontrivial=nontrivial)
-        res.count('parse:' + (out[0] if out[0] == 'ok' else out[1]))
-    res.sample({'text': '#(1:2) 3 #5', 'impl': impl_get_ast('#(1:2) 3 #5')})
-    bad, errs = common.run_case_files('c11_parse', HEADER, 'string * res ast',
-                                      'check_parse', cases, chunk=4000)
-    res.obligation(f'tie:parse exhaustive ({n_exh} strings of length <= '
-                   f'{max_len}, {len(texts) - n_exh} token soups; '
-                   f'{n_acc} accepted or AttributeError)',
-                   not bad and not errs, f'{len(bad)} disagreements {errs[:1]}')
-    res.extra['exhaustive'] = True
-    res.extra['exhaustive_domain'] = (f'all strings of length <= {max_len} '
-                                      f'over {alphabet!r}')
-    for idx in bad[:8]:
-        text, out = meta[idx]
-        model, _ = common.coq_eval(HEADER, f'get_ast {cstr(text)}')
-        res.violation('correspondence',
-                      f'get_ast({text!r}): implementation {out}, model '
-                      f'{model}', {'input': {'text': text}, 'observed': out,
-                                   'model': model,
-                                   'theorem_or_correspondence': 'tie:parse'},
-                      found_input=False)
-
-    # ---- generated expressions: tie + truth-table sweep ----
-    n_expr = 1500 if tier == 'quick' else 12000
-    cases2, meta2 = [], []
-    for _ in range(n_expr):
-        n_surf = rng.randint(1, 4)
-        e = gen_expr(rng, rng.randint(1, 5), n_surf, cells=[7, 8, 9]
-                     if rng.random() < 0.4 else [])
-        text = render(e, rng)
-        out = impl_get_ast(text)
-        cases2.append(cpair(cstr(text), coq_res(out)))
-        meta2.append((text, out))
-        res.seen(text)
-        cls = classify(e)
-        res.count('expr:' + (cls or 'plain'))
-        if out[0] == 'err':
+        explicit.add(text, out, 'corpus')
+        res.seen(text, nontrivial=want is not None)
+        res.count('corpus:' + ('expr' if want is not None else 'malformed'))
+        if want is not None and out != ('ok', want):
             res.violation('impl-violation',
-                          f'well-formed expression {text!r} rejected: {out[1]}',
-                          {'input': {'text': text, 'expr': e},
-                           'observed': out}, cls=cls)
-            continue
-        # truth table: #n atoms are opaque Boolean variables here
-        at = sorted(atoms(e, set()), key=str)
-        cellvars = [7, 8, 9]
-        ok = True
-        for bits in itertools.product([False, True],
-                                      repeat=len(at) + len(cellvars)):
-            sigma = dict(zip(at, bits))
-            cellval = dict(zip(cellvars, bits[len(at):]))
-            want = spec_eval(e, sigma, lambda n, _s: cellval[n])
-            got = eval_with_cells(out[1], sigma, cellval)
-            if want != got:
-                ok = False
+                          f'{text!r} should read {want}, implementation '
+                          f'gives {out}',
+                          {'input': {'text': text}, 'expected': want,
+                           'observed': out}, found_input=True)
+        if want is None and out[0] == 'ok':
+            res.violation('impl-violation',
+                          f'{text!r} is not an expression but is accepted as '
+                          f'{out[1]}',
+                          {'input': {'text': text}, 'observed': out},
+                          found_input=True)
+    # the memoising parser used here against the shared shim
+    n_cross, n_diff = 0, 0
+    for text in itertools.chain((t for t, _ in CORPUS),
+                                (t for t, _ in CORPUS_KNOWN),
+                                strings_upto('', 4)):
+        n_cross += 1
+        if impl_get_ast(text) != impl_get_ast(text, plain=True):
+            n_diff += 1
+            res.violation('harness-error',
+                          f'c11_peg.FastParser and shim_peg.Parser differ on '
+                          f'{text!r}', {'input': {'text': text}},
+                          found_input=False)
+    res.obligation(f'harness: memoising PEG = shared shim on {n_cross} texts',
+                   n_diff == 0, f'{n_diff} differ')
+    timings['corpus'] = time.time() - t0
+
+    # ---- 2. exhaustive parse tie by fingerprints -------------------------
+    t0 = time.time()
+    max_len = 5 if quick else 6
+    short = [''] + list(ALPHABET)
+    for text in short:
+        out = impl_get_ast(text)
+        explicit.add(text, out, 'exhaustive-short')
+        res.seen(text, nontrivial=out[0] == 'ok')
+    prefixes = [a + b for a in ALPHABET for b in ALPHABET]
+    impl_fp, bucket_out = {}, {}
+    n_exh = len(short)
+    n_acc = 0
+    for pre in prefixes:
+        acc, total = 0, 0
+        for text in strings_upto(pre, max_len - 2):
+            out = impl_get_ast(text)
+            n_exh += 1
+            if out[0] == 'ok':
+                acc += 1
+            nontrivial = out[0] == 'ok' or out[1] == 'EAttribute'
+            res.seen(text, nontrivial=nontrivial)
+            res.count('exhaustive:' + (out[0] if out[0] == 'ok' else out[1]))
+            total = (total + h_str(text) * h_res(out)) % FP_P
+            wellformed(res, ref, text, out, 'exhaustive')
+        impl_fp[pre] = (acc, total)
+        n_acc += acc
+    timings['exhaustive-impl'] = time.time() - t0
+    t0 = time.time()
+    fp_cases = [cpair(cstr(pre), cn(impl_fp[pre][0]), cn(impl_fp[pre][1]))
+                for pre in prefixes]
+    check = (f'(fun c : string * N * N => let \'(p, a, h) := c in '
+             f'let r := bucket_fp p {max_len - 2} in '
+             f'N.eqb (fst r) a && N.eqb (snd r) h)')
+    bad, errs = common.run_case_files('c11_fp', HEADER, 'string * N * N',
+                                      check, fp_cases, chunk=6)
+    res.obligation(f'tie:parse exhaustive ({n_exh} strings of length <= '
+                   f'{max_len} over {ALPHABET!r}, {n_acc} accepted; 81 '
+                   'buckets, accepted count and result fingerprint equal)',
+                   not bad and not errs,
+                   f'buckets differing: {[prefixes[i] for i in bad]} '
+                   f'{errs[:1]}')
+    res.extra['exhaustive'] = True
+    res.extra['exhaustive_domain'] = (f'all {n_exh} strings of length <= '
+                                      f'{max_len} over {ALPHABET!r}')
+    for idx in bad[:3]:            # re-run the bucket case by case
+        pre = prefixes[idx]
+        for text in strings_upto(pre, max_len - 2):
+            explicit.add(text, impl_get_ast(text), 'exhaustive-bucket')
+    timings['exhaustive-coq'] = time.time() - t0
+
+    # ---- 3. token soups ---------------------------------------------------
+    t0 = time.time()
+    soup = ['1', '2', '12', '-1', '+2', '1.1', '-2.3', '#', '# ', '(', ')',
+            ':', ' ', '  ', '#(', '#1', '# 2', ' : ', '.', '-', '+', '1.23',
+            '007', '+', '#3', '3 ', ' 4', '+5.6']
+    for _ in range(3000 if quick else 40000):
+        text = ''.join(rng.choice(soup) for _ in range(rng.randint(2, 9)))
+        out = impl_get_ast(text)
+        explicit.add(text, out, 'soup')
+        wellformed(res, ref, text, out, 'soup')
+        res.seen(text, nontrivial=out[0] == 'ok' or out[1] == 'EAttribute')
+        res.count('soup:' + (out[0] if out[0] == 'ok' else out[1]))
+    timings['soups'] = time.time() - t0
+
+    # ---- 4. every small expression in every layout -----------------------
+    t0 = time.time()
+    layouts = list(all_layouts())
+    n_small = 0
+    for k in range(1, (3 if quick else 4) + 1):
+        for e in small_exprs(k):
+            n_small += 1
+            text0 = render(e, CANON)
+            out0 = impl_get_ast(text0)
+            explicit.add(text0, out0, 'small')
+            res.seen(text0)
+            accepted = sweep_expr(res, ref, e, text0, out0, f'small{k}')
+            if not accepted and has_colon_hash(e) \
+                    and not has_cell_under_not(e):
+                pe = protect(e)
+                ptext = render(pe, CANON)
+                pout = impl_get_ast(ptext)
+                explicit.add(ptext, pout, 'small-protected')
+                sweep_expr(res, ref, pe, ptext, pout, f'small{k}-protected')
+            # all 64 layouts for <= 2 (quick) / <= 3 (thorough) operands, a
+            # sample of 16 / 8 of them for the largest size of the tier
+            if k < (3 if quick else 4):
+                some = layouts
+            else:
+                some = rng.sample(layouts, 16 if quick else 8)
+            pick = rng.randrange(len(some))
+            for j, lay in enumerate(some):
+                text = render(e, lay)
+                out = impl_get_ast(text)
+                res.seen(text)
+                if j == pick:
+                    explicit.add(text, out, 'small-layout')
+                if out != out0:
+                    res.violation(
+                        'impl-violation',
+                        f'layout changes the reading: {text0!r} -> {out0}, '
+                        f'{text!r} -> {out}',
+                        {'input': {'text': text, 'canonical': text0,
+                                   'expr': e}, 'observed': out,
+                         'expected': out0},
+                        cls=classify(e, out) if out[0] == 'err' else None,
+                        found_input=True)
+    res.count('small-expressions', n_small)
+    timings['small'] = time.time() - t0
+
+    # ---- 5. random larger expressions, random layouts, mutations ---------
+    t0 = time.time()
+    generated = []
+    for _ in range(1200 if quick else 12000):
+        n_surf = rng.randint(1, 4)
+        e = gen_expr(rng, rng.randint(1, 5), n_surf,
+                     cells=list(OPAQUE) if rng.random() < 0.4 else [])
+        lay = random_layout(rng)
+        lay['zeros'] = True
+        text = render(e, lay)
+        out = impl_get_ast(text)
+        explicit.add(text, out, 'random')
+        generated.append(text)
+        res.seen(text)
+        accepted = sweep_expr(res, ref, e, text, out, 'random')
+        if not accepted and has_colon_hash(e) and not has_cell_under_not(e):
+            pe = protect(e)
+            ptext = render(pe, lay)
+            pout = impl_get_ast(ptext)
+            explicit.add(ptext, pout, 'random-protected')
+            sweep_expr(res, ref, pe, ptext, pout, 'random-protected')
+        if accepted:
+            text2 = render(e, CANON)
+            out2 = impl_get_ast(text2)
+            if out2 != out:
                 res.violation('impl-violation',
-                              f'{text!r}: parsed tree evaluates to {got}, '
-                              f'MCNP meaning is {want} under {sigma} '
-                              f'{cellval}',
-                              {'input': {'text': text, 'expr': e},
-                               'sigma': [list(map(str, sigma.items())),
-                                         cellval],
-                               'observed': out}, found_input=True)
-                break
-        res.count('sweep:' + ('ok' if ok else 'FAIL'))
-    # mutated texts (malformed stream)
-    for text, _ in list(meta2[:600]):
+                              f'layout changes the reading: {text2!r} -> '
+                              f'{out2}, {text!r} -> {out}',
+                              {'input': {'text': text, 'canonical': text2,
+                                         'expr': e}, 'observed': out},
+                              found_input=True)
+    for text in generated[:600 if quick else 6000]:
         chars = list(text)
         for _ in range(rng.randint(1, 2)):
             pos = rng.randrange(len(chars) + 1)
@@ -375,124 +882,295 @@ def run(res, tier, seed, proofs_ok):
                 chars[min(pos, len(chars) - 1)] = rng.choice('()#:.-+ 12')
         mtext = ''.join(chars)
         out = impl_get_ast(mtext)
-        cases2.append(cpair(cstr(mtext), coq_res(out)))
-        meta2.append((mtext, out))
+        explicit.add(mtext, out, 'mutated')
+        wellformed(res, ref, mtext, out, 'mutated')
         res.seen(mtext, nontrivial=out[0] == 'ok')
         res.count('mutated:' + (out[0] if out[0] == 'ok' else out[1]))
-    bad, errs = common.run_case_files('c11_expr', HEADER, 'string * res ast',
-                                      'check_parse', cases2, chunk=400)
-    res.obligation(f'tie:parse random ({len(cases2)} generated/mutated '
-                   'expressions)', not bad and not errs,
+    timings['random'] = time.time() - t0
+
+    # ---- explicit cases through the model --------------------------------
+    t0 = time.time()
+    res.sample({'text': '#(1:2) 3 #5', 'impl': impl_get_ast('#(1:2) 3 #5')})
+    res.sample({'text': explicit.meta[-1][0], 'impl': explicit.meta[-1][1]})
+    bad, errs = common.run_case_files('c11_parse', HEADER, 'string * res ast',
+                                      'check_parse', explicit.cases,
+                                      chunk=1500)
+    origins = {}
+    for _, _, origin in explicit.meta:
+        origins[origin] = origins.get(origin, 0) + 1
+    res.obligation(f'tie:parse explicit ({len(explicit.cases)} texts: '
+                   f'{origins})', not bad and not errs,
                    f'{len(bad)} disagreements {errs[:1]}')
     for idx in bad[:8]:
-        text, out = meta2[idx]
+        text, out, origin = explicit.meta[idx]
         model, _ = common.coq_eval(HEADER, f'get_ast {cstr(text)}')
         res.violation('correspondence',
-                      f'get_ast({text!r}): implementation {out}, model '
-                      f'{model}', {'input': {'text': text}, 'observed': out,
-                                   'model': model,
-                                   'theorem_or_correspondence': 'tie:parse'},
+                      f'get_ast({text!r}) [{origin}]: implementation {out}, '
+                      f'model {model}',
+                      {'input': {'text': text}, 'observed': out,
+                       'model': model,
+                       'theorem_or_correspondence': 'tie:parse'},
                       found_input=False)
+    timings['explicit-coq'] = time.time() - t0
 
-    # ---- pot_complement tie + sweep ----
-    n_tab = 400 if tier == 'quick' else 3000
-    cases3, meta3 = [], []
-    for _ in range(n_tab):
-        # acyclic table: cell k may reference cells < k
-        n_cells = rng.randint(2, 5)
-        ids = [rng.randint(1, 40) for _ in range(n_cells)]
-        ids = list(dict.fromkeys(ids))
-        exprs = {}
-        for k, cid in enumerate(ids):
-            earlier = ids[:k]
+    # ---- 6. pot_complement: tie + sweep ----------------------------------
+    t0 = time.time()
+    run_complement(res, rng, 400 if quick else 3000)
+    timings['complement'] = time.time() - t0
+
+    # ---- 7. cellcard.split -------------------------------------------------
+    t0 = time.time()
+    run_split(res, rng, generated[:300 if quick else 3000])
+    timings['split'] = time.time() - t0
+    res.extra['timings_s'] = {k: round(v, 1) for k, v in timings.items()}
+
+
+def gen_table(rng):
+    '''acyclic table: cell k may reference cells listed before it'''
+    n_cells = rng.randint(2, 5)
+    ids = list(dict.fromkeys(rng.randint(1, 40) for _ in range(n_cells)))
+    if len(ids) < 2:
+        ids.append(ids[0] + 1)
+    exprs = {}
+    for k, cid in enumerate(ids):
+        earlier = ids[:k]
+        for _ in range(30):
             e = gen_expr(rng, rng.randint(1, 3), 3, cells=earlier)
-            tries = 0
-            while (classify(e) is not None) and tries < 20:
-                e = gen_expr(rng, rng.randint(1, 3), 3, cells=earlier)
-                tries += 1
-            if classify(e) is not None:
-                e = ('s', 1, None)
-            exprs[cid] = e
+            if not has_cell_under_not(e) and not has_colon_hash(e):
+                break
+        else:
+            e = ('s', 1, None)
+        exprs[cid] = e
+    return ids, exprs
+
+
+def run_complement(res, rng, n_tab):
+    cases, meta = [], []
+    loop_cases, loop_meta = [], []
+    for i in range(n_tab):
+        ids, exprs = gen_table(rng)
         lattice = {cid for cid in ids[:-1] if rng.random() < 0.1}
-        if rng.random() < 0.05:
-            # dangling reference / cycle for the error branches
-            exprs[ids[0]] = ('*', exprs[ids[0]], ('#c', rng.choice(
-                [99, ids[-1]])))
-        texts3 = {cid: render(e, rng) for cid, e in exprs.items()}
+        fault = None
+        if rng.random() < 0.08:
+            fault = rng.choice(['dangling', 'cycle'])
+            extra = ('#c', 99 if fault == 'dangling' else ids[-1])
+            exprs[ids[0]] = ('*', exprs[ids[0]], extra)
+        # dictionary order of the table is shuffled: the loop of
+        # ConstructVolumeT4 must not depend on it
+        order = ids[:]
+        rng.shuffle(order)
+        texts = {cid: render(exprs[cid], random_layout(rng))
+                 for cid in order}
         target = ids[-1]
-        out = impl_complement(texts3, lattice, target)
-        parsed = {cid: impl_get_ast(t)[1] for cid, t in texts3.items()}
+        out = impl_complement(texts, lattice, target)
+        parsed = {cid: impl_get_ast(t)[1] for cid, t in texts.items()}
         table = clist(cpair(cn(cid), f'(mkCell {coq_ast(parsed[cid])} '
                                      f'{cbool(cid in lattice)})')
                       for cid in ids)
-        cases3.append(cpair(table, coq_ast(parsed[target]), coq_res(out)))
-        meta3.append((texts3, sorted(lattice), target, out))
-        res.seen((sorted(texts3.items()), target))
-        res.count('complement:' + (out[0] if out[0] == 'ok' else out[1]))
-        # sweep: truth table against the spec with real cell semantics
-        if out[0] == 'ok' and not lattice:
-            at = set()
-            for e in exprs.values():
-                atoms(e, at)
-            at = sorted(at, key=str)
-
-            def cellfun(n, sigma, depth=0):
-                return spec_eval(exprs[n], sigma,
-                                 lambda m, s: cellfun(m, s, depth + 1))
+        cases.append(cpair(table, coq_ast(parsed[target]), coq_res(out)))
+        meta.append((texts, sorted(lattice), target, out))
+        # the whole loop, table in dictionary order (not when a lattice cell
+        # itself complements a cell: extract_surfaces_list is then fed a list)
+        if not any('#c' in repr(exprs[cid]) for cid in lattice):
+            lout = impl_loop_abort(texts, lattice)
+            ltable = clist(cpair(cn(cid), f'(mkCell {coq_ast(parsed[cid])} '
+                                          f'{cbool(cid in lattice)})')
+                           for cid in order)
+            if lout[0] == 'ok':
+                want = '(Ok ' + clist(cpair(cn(cid), coq_ast(tree))
+                                      for cid, tree in lout[1]) + ')'
+            else:
+                want = f'(Err {lout[1]})'
+            loop_cases.append(cpair(ltable, want))
+            loop_meta.append((texts, sorted(lattice), lout))
+            res.count('loop:' + (lout[0] if lout[0] == 'ok' else lout[1]))
+        res.seen((sorted(texts.items()), sorted(lattice), target))
+        res.count('complement:' + (out[0] if out[0] == 'ok' else out[1])
+                  + (':lattice' if lattice else '')
+                  + (f':{fault}' if fault else ''))
+        if lattice or fault:
+            continue
+        # sweep: MCNP meaning of every cell (mcnpref resolves #n through the
+        # cell table) vs the complement-free trees
+        cref = BoolRef(exprs)
+        at = set()
+        for e in exprs.values():
+            atoms(e, at)
+        at = sorted(at, key=str)
+        loop = impl_complement_loop(texts)
+        checks = [(target, out, 'pot_complement')] + \
+            [(cid, loop[cid], 'complement loop') for cid in order]
+        for cid, got_out, what in checks:
+            if got_out[0] != 'ok':
+                res.violation('impl-violation',
+                              f'{what}: cell {cid} of {texts} rejected '
+                              f'({got_out[1]})',
+                              {'input': {'cells': texts, 'target': cid},
+                               'observed': got_out}, found_input=True)
+                continue
             for bits in itertools.product([False, True], repeat=len(at)):
                 sigma = dict(zip(at, bits))
-                want = spec_eval(exprs[target], sigma, cellfun)
-                got = tree_eval(out[1], sigma)
+                want = cref.in_cell(cid, sigma)
+                try:
+                    got = tree_eval(got_out[1], sigma)
+                except ValueError:
+                    got = None
                 if want != got:
                     res.violation('impl-violation',
-                                  f'cell {target} of {texts3}: after complement'
-                                  f' elimination evaluates to {got}, MCNP '
-                                  f'meaning {want}',
-                                  {'input': {'cells': texts3,
-                                             'target': target},
-                                   'observed': out}, found_input=True)
+                                  f'{what}: cell {cid} of {texts} evaluates '
+                                  f'to {got} after complement elimination, '
+                                  f'MCNP meaning is {want}',
+                                  {'input': {'cells': texts, 'target': cid},
+                                   'observed': got_out}, found_input=True)
                     break
-    res.sample({'cells': meta3[0][0], 'target': meta3[0][2],
-                'impl': meta3[0][3]})
+    res.sample({'cells': meta[0][0], 'target': meta[0][2],
+                'impl': meta[0][3]})
     bad, errs = common.run_case_files(
         'c11_compl', HEADER, 'list (N * cell) * ast * res ast',
-        'check_complement', cases3, chunk=200)
-    res.obligation(f'tie:complement ({len(cases3)} cell tables)',
-                   not bad and not errs, f'{len(bad)} disagreements {errs[:1]}')
-    for idx in bad[:8]:
-        texts3, lat, target, out = meta3[idx]
+        'check_complement', cases, chunk=100)
+    res.obligation(f'tie:complement ({len(cases)} cell tables)',
+                   not bad and not errs,
+                   f'{len(bad)} disagreements {errs[:1]}')
+    lbad, lerrs = common.run_case_files(
+        'c11_loop', HEADER, 'list (N * cell) * res (list (N * ast))',
+        'check_loop', loop_cases, chunk=100)
+    res.obligation(f'tie:loop ({len(loop_cases)} cell tables through the '
+                   'in-place loop of construct_volume vs Model.eliminate_all)',
+                   not lbad and not lerrs,
+                   f'{len(lbad)} disagreements {lerrs[:1]}')
+    for idx in lbad[:8]:
+        texts, lat, lout = loop_meta[idx]
         res.violation('correspondence',
-                      f'pot_complement on {texts3} (lattice {lat}) target '
+                      f'complement loop on {texts} (lattice {lat}): '
+                      f'implementation {lout}',
+                      {'input': {'cells': texts, 'lattice': lat,
+                                 'target': next(iter(texts))},
+                       'observed': lout,
+                       'theorem_or_correspondence': 'tie:loop'},
+                      found_input=False)
+    for idx in bad[:8]:
+        texts, lat, target, out = meta[idx]
+        res.violation('correspondence',
+                      f'pot_complement on {texts} (lattice {lat}) target '
                       f'{target}: implementation {out}',
-                      {'input': {'cells': texts3, 'lattice': lat,
+                      {'input': {'cells': texts, 'lattice': lat,
                                  'target': target}, 'observed': out,
                        'theorem_or_correspondence': 'tie:complement'},
                       found_input=False)
 
 
-def eval_with_cells(tree, sigma, cellval):
-    if tree[0] == '^':
-        return not cellval[tree[1]]
-    if tree[0] == 's':
-        val = sigma[(abs(tree[1]), tree[2])]
-        return val if tree[1] > 0 else not val
-    if tree[0] == '*':
-        return (eval_with_cells(tree[1], sigma, cellval)
-                and eval_with_cells(tree[2], sigma, cellval))
-    return (eval_with_cells(tree[1], sigma, cellval)
-            or eval_with_cells(tree[2], sigma, cellval))
+OPTIONS = ['imp:n=1', 'IMP:N=1 IMP:P=0', 'u=2', 'fill=3', 'vol=1.5 imp:n=1',
+           '*fill=4 (1 0 0)', 'tmp=2.5e-8', 'lat=1 u=5 imp:n=1', '']
+
+
+def impl_split(card):
+    from MIP.mip import cellcard
+    try:
+        _name, _mat, geom, opts = cellcard.split(card)
+        return ('ok', geom, opts)
+    except IndexError:
+        return ('err', 'EIndex')
+    except ValueError:
+        return ('err', 'EValue')
+
+
+def run_split(res, rng, texts):
+    '''cellcard.split: sweep (the geometry part of a card parses like the
+    expression, options intact) and tie with Model.split_card (geometry and
+    options strings, or the exception) incl. malformed cards'''
+    n_bad = 0
+    cases, meta = [], []
+
+    def tie(card):
+        if card in seen_cards:
+            return
+        seen_cards.add(card)
+        got = impl_split(card)
+        want = (f'(Ok ({cstr(got[1])}, {cstr(got[2])}))' if got[0] == 'ok'
+                else f'(Err {got[1]})')
+        cases.append(cpair(cstr(card), want))
+        meta.append((card, got))
+        res.count('split-tie:' + (got[0] if got[0] == 'ok' else got[1]))
+
+    seen_cards = set()
+    for text in texts:
+        if not text.strip():
+            continue
+        want = impl_get_ast(text)
+        opts = rng.choice(OPTIONS)
+        mat = rng.choice(['0', '3 -2.7', '12 0.0602', '1 1.0-3', '00', '7 +1'])
+        glue = ' ' * rng.choice((1, 1, 2))
+        if opts and text.rstrip().endswith(')') and rng.random() < 0.3:
+            glue = ''            # "...)imp:n=1" is legal
+        sep = ' '
+        if ' ' in mat and text.startswith('(') and rng.random() < 0.5:
+            sep = ''             # "1 3 -2.7(1:2)" : density glued to '('
+        name = str(rng.randint(1, 999))
+        lead = ' ' * rng.choice((0, 0, 1))
+        card = f'{lead}{name} {mat}{sep}{text}{glue}{opts}'
+        tie(card)
+        # malformed neighbours (tie only)
+        fault = rng.random()
+        if fault < 0.08:
+            tie(f'{name} {mat.split()[0]}')                 # no geometry
+        elif fault < 0.16:
+            tie(f'{name}a {mat} {text}{glue}{opts}')        # name not a number
+        elif fault < 0.24:
+            tie(f'{name} {mat.split()[0]} ({text}')         # '(' where the density is expected
+        elif fault < 0.32:
+            tie(f'{name}  {mat}   {text} {opts}  ')
+        if want[0] != 'ok':
+            continue
+        res.seen(card)
+        res.count('split:' + ('options' if opts else 'bare'))
+        out = impl_split(card)
+        got = impl_get_ast(out[1]) if out[0] == 'ok' else out
+        got_opts = out[2] if out[0] == 'ok' else None
+        if got != want or (got_opts or '').strip() != opts:
+            n_bad += 1
+            res.violation('impl-violation',
+                          f'cell card {card!r}: geometry part reads {got}, '
+                          f'options {got_opts!r}; the expression alone reads '
+                          f'{want}',
+                          {'input': {'card': card, 'text': text},
+                           'observed': got}, found_input=True)
+    res.obligation(f'sweep:split (geometry of {len(texts)} cell cards = the '
+                   'expression)', n_bad == 0, f'{n_bad} differ')
+    bad, errs = common.run_case_files(
+        'c11_split', HEADER, 'string * res (string * string)', 'check_split',
+        cases, chunk=300)
+    res.obligation(f'tie:split ({len(cases)} cell cards incl. malformed: '
+                   'cellcard.split vs Model.split_card)',
+                   not bad and not errs, f'{len(bad)} disagreements {errs[:1]}')
+    for idx in bad[:8]:
+        card, got = meta[idx]
+        model, _ = common.coq_eval(HEADER, f'split_card {cstr(card)}')
+        res.violation('correspondence',
+                      f'cellcard.split({card!r}): implementation {got}, model '
+                      f'{model}',
+                      {'input': {'card': card}, 'observed': got, 'model': model,
+                       'theorem_or_correspondence': 'tie:split'},
+                      found_input=False)
 
 
 def replay(path):
     data = json.load(open(path))
     inp = data.get('input', {})
+    if 'card' in inp:
+        print('split:', impl_split(inp['card']))
+        model, _ = common.coq_eval(HEADER, f'split_card {cstr(inp["card"])}')
+        print('model:', model)
     if 'text' in inp:
+        import MIP.geom.parsegeom as pg
+        print('normalize:', repr(pg.normalize(inp['text'])))
         print('implementation:', impl_get_ast(inp['text']))
+        print('reference reader:', c11_refparse.parse(inp['text']))
         model, _ = common.coq_eval(HEADER, f'get_ast {cstr(inp["text"])}')
         print('model:', model)
     if 'cells' in inp:
         cells = {int(k): v for k, v in inp['cells'].items()}
         print('implementation:', impl_complement(
-            cells, set(inp.get('lattice', [])), inp['target']))
+            cells, set(inp.get('lattice', [])), int(inp['target'])))
+        print('loop:', impl_complement_loop(cells))
     print('recorded:', data.get('what'))
     return 0
